@@ -365,8 +365,10 @@ static std::vector<Cfg> unit_cfgs(const U0 &u){
 }
 static std::vector<UnitDef> units(){
     std::vector<U0> u; bool th = (g_tier == "thorough"); int maxd = th ? 3 : 2;
-    std::vector<TypeOneDRule> gr = {rule_clenshawcurtis, rule_gausslegendre, rule_gausschebyshev1, rule_gausschebyshev2, rule_gaussgegenbauer, rule_gaussjacobi, rule_gausslaguerre, rule_gausshermite};
-    if (th){ for(auto r : {rule_fejer2, rule_gausspatterson, rule_leja, rule_gausslegendreodd, rule_gausschebyshev1odd, rule_gausschebyshev2odd, rule_gaussgegenbauerodd, rule_gaussjacobiodd, rule_gausslaguerreodd, rule_gausshermiteodd}) gr.push_back(r); }
+    // every rule with its own canonical domain in both of its variants (the -odd rules are separate enum values: a switch over the rule can forget one)
+    std::vector<TypeOneDRule> gr = {rule_clenshawcurtis, rule_gausslegendre, rule_gausschebyshev1, rule_gausschebyshev2, rule_gaussgegenbauer, rule_gaussjacobi, rule_gausslaguerre, rule_gausshermite,
+                                    rule_gausslaguerreodd, rule_gausshermiteodd, rule_gaussjacobiodd};
+    if (th){ for(auto r : {rule_fejer2, rule_gausspatterson, rule_leja, rule_gausslegendreodd, rule_gausschebyshev1odd, rule_gausschebyshev2odd, rule_gaussgegenbauerodd}) gr.push_back(r); }
     for(auto r : gr) for(int d=1; d<=maxd; d++) u.push_back({F_GLOBAL, r, d, 0});
     for(auto r : th ? std::vector<TypeOneDRule>{rule_rleja, rule_minlebesgue} : std::vector<TypeOneDRule>{rule_rleja}) for(int d=1; d<=maxd; d++) u.push_back({F_SEQUENCE, r, d, 0});
     for(int d=1; d<=maxd; d++) u.push_back({F_FOURIER, rule_fourier, d, 0});
